@@ -49,6 +49,7 @@ const (
 
 var c32WouldBlock = errors.New("c32 pipe: no data available")
 var c32Closed = errors.New("c32 pipe: closed")
+var c32Overrun = errors.New("c32 pipe: the sender writes more than the frames its data needs")
 
 // c32Half is one direction of the duplex.
 type c32Half struct {
@@ -62,6 +63,7 @@ type c32Half struct {
 	flipAt   int64 // absolute offset of the byte to corrupt, -1 = none
 	flipMask byte
 	flipped  bool
+	limit    int64 // > 0: a write that would bring the total above it fails (a sender that never stops must not fill the memory)
 }
 
 func newC32Half() *c32Half {
@@ -75,6 +77,9 @@ func (h *c32Half) write(p []byte) (int, error) {
 	defer h.mu.Unlock()
 	if h.closed {
 		return 0, c32Closed
+	}
+	if h.limit > 0 && h.written+int64(len(p)) > h.limit {
+		return 0, c32Overrun
 	}
 	start := len(h.buf)
 	h.buf = append(h.buf, p...)
@@ -131,7 +136,7 @@ func (e *c32End) Close() error {
 type c32Op struct {
 	Dir  int    `json:"dir"`  // 0: A writes / B reads, 1: B writes / A reads
 	Kind string `json:"kind"` // "w" | "r"
-	Size int    `json:"size"` // w: 0..5000 bytes, r: buffer of 1..2100 bytes
+	Size int    `json:"size"` // w: 0..5000 bytes or one of a few sizes around 65536 and its multiples, r: buffer of 1..2100 bytes
 }
 
 type c32Corrupt struct {
@@ -155,7 +160,9 @@ func c32Gen(t *rapid.T) c32Case {
 		c.MaxRead = rapid.SampledFrom([]int{1, 7, 100, 521, 1041, 1042, 1043, 1500}).Draw(t, "maxread")
 	}
 	wsize := func() int {
-		switch rapid.IntRange(0, 7).Draw(t, "wkind") {
+		switch rapid.IntRange(0, 15).Draw(t, "wkind") % 9 {
+		case 8: // a whole send buffer at once (the connection layer flushes up to 65536 bytes in one Write), around the 16-bit boundary
+			return rapid.SampledFrom([]int{65536, 65535, 65537, 66560, 70000, 131072, 196608}).Draw(t, "wbig")
 		case 0:
 			return rapid.IntRange(0, 3).Draw(t, "wtiny")
 		case 1:
@@ -246,7 +253,7 @@ func c32Exec(c c32Case, x *pbt.Ctx) error {
 	}
 	for _, op := range c.Ops {
 		if op.Dir < 0 || op.Dir > 1 || (op.Kind != "w" && op.Kind != "r") ||
-			(op.Kind == "w" && (op.Size < 0 || op.Size > 5000)) || (op.Kind == "r" && (op.Size < 1 || op.Size > 2100)) {
+			(op.Kind == "w" && (op.Size < 0 || op.Size > 300000)) || (op.Kind == "r" && (op.Size < 1 || op.Size > 2100)) {
 			return nil
 		}
 	}
@@ -429,9 +436,15 @@ func c32Exec(c c32Case, x *pbt.Ctx) error {
 			for j := range data {
 				data[j] = c32Payload(op.Dir, len(D.sent)+j)
 			}
+			// what a correct sender puts on the wire for this write, and not one byte more
+			wantFrames := len(D.frames) + (op.Size+c32DataMax-1)/c32DataMax
+			half[op.Dir].set(func(h *c32Half) { h.limit = int64(c32EphKeyLen + c32SealedFrame*(1+wantFrames)) })
 			n, err := sc[op.Dir].Write(data)
 			if err != nil || n != op.Size {
-				return fmt.Errorf("op %d: Write(%d bytes) = %d, %v", i, op.Size, n, err)
+				return fmt.Errorf("op %d: Write(%d bytes) = %d, %v (the wire accepts exactly the %d frames such a write needs)", i, op.Size, n, err, (op.Size+c32DataMax-1)/c32DataMax)
+			}
+			if op.Size >= 65535 {
+				x.Class("write>=65535-bytes")
 			}
 			D.sent = append(D.sent, data...)
 			for rest := op.Size; rest > 0; rest -= c32DataMax {
@@ -501,8 +514,8 @@ var _ io.ReadWriteCloser = (*c32End)(nil)
 
 func TestC32(t *testing.T) {
 	pbt.Run(t, "C32",
-		"two keys from generated seeds; handshake over an in-memory duplex (optionally with short pipe reads); 1..24 ops: writes of 0..5000 bytes (boundary-heavy around k*1024) and reads with buffers of 1..2100 bytes in one or both directions, then a drain with the same buffer sizes; in 1/3 of the cases one byte of one sealed frame (handshake frame or a data frame) is xor-ed on the wire; oracle: bytes returned by Read (by n) are a prefix of / finally equal to the bytes written, nothing of an altered frame is delivered and Read fails there, RemotePubKey = peer key; non-trivial = a Read with a buffer smaller than the rest of the frame it reads from, or an altered frame that was reached; distinct by whole case",
+		"two keys from generated seeds; handshake over an in-memory duplex (optionally with short pipe reads); 1..24 ops: writes of 0..5000 bytes (boundary-heavy around k*1024; one write in 16 is a whole send buffer of 65535..196608 bytes, the wire accepting exactly the frames it needs) and reads with buffers of 1..2100 bytes in one or both directions, then a drain with the same buffer sizes; in 1/3 of the cases one byte of one sealed frame (handshake frame or a data frame) is xor-ed on the wire; oracle: bytes returned by Read (by n) are a prefix of / finally equal to the bytes written, nothing of an altered frame is delivered and Read fails there, RemotePubKey = peer key; non-trivial = a Read with a buffer smaller than the rest of the frame it reads from, or an altered frame that was reached; distinct by whole case",
 		pbt.Options{Checks: pbt.Per(10000, 1200000),
-			MinClass: map[string]int{"read-smaller-than-frame-remainder": 100, "corruption-detected": 50, "handshake-ok": 100}},
+			MinClass: map[string]int{"read-smaller-than-frame-remainder": 100, "corruption-detected": 50, "handshake-ok": 100, "write>=65535-bytes": 100}},
 		c32Gen, c32Exec)
 }
